@@ -154,6 +154,14 @@ class Pgmat:
                 setattr(self, k, loopcut.Token("pgmat." + k))
         for k in META_ATTR:
             setattr(self, k, loopcut.Token("pgmat." + k))
+        # group index vectors are element-level arrays (a symbolic number of groups, every index inside the marker axis), so code
+        # that indexes with them stays inside the verified subset
+        ng = fresh_int("ngroups", 0)
+        g = z3.Int("q_g")
+        for k, hi in (("vrnt_chrgrp_stix", _t(p) - 1), ("vrnt_chrgrp_spix", _t(p)), ("vrnt_chrgrp_len", _t(p))):
+            a = EArr.fresh("pgmat." + k, (ng,), numpy.int64)
+            cur().assume(z3.ForAll([g], z3.Implies(z3.And(0 <= g, g < ng.t), z3.And(0 <= a._fn(g), a._fn(g) <= hi)), patterns=[a._fn(g)]))
+            setattr(self, k, a)
 
 
 class Me:
